@@ -192,9 +192,34 @@ func one(rng *rand.Rand, id string, mk func() codecT) (msg string) {
 	return ""
 }
 
+// defaults: the scalar members (integers, enums as numbers, bool, string) of a fresh value after
+// ResetDefault, in member order
+func defaults(v codecT) string {
+	rd, ok := v.(interface{ ResetDefault() })
+	if !ok {
+		return "no-ResetDefault"
+	}
+	rd.ResetDefault()
+	e := reflect.ValueOf(v).Elem()
+	s := ""
+	for i := 0; i < e.NumField(); i++ {
+		f := e.Field(i)
+		switch f.Kind() {
+		case reflect.Bool, reflect.String:
+			s += fmt.Sprintf("%%s=%%q;", e.Type().Field(i).Name, fmt.Sprint(f.Interface()))
+		case reflect.Int8, reflect.Int16, reflect.Int32, reflect.Int64:
+			s += fmt.Sprintf("%%s=%%q;", e.Type().Field(i).Name, fmt.Sprint(f.Int()))
+		case reflect.Uint8, reflect.Uint16, reflect.Uint32:
+			s += fmt.Sprintf("%%s=%%q;", e.Type().Field(i).Name, fmt.Sprint(f.Uint()))
+		}
+	}
+	return s
+}
+
 func main() {
 	rng := rand.New(rand.NewSource(%d))
 	for _, t := range all {
+		fmt.Printf("RTDEF %%s %%s\n", t.id, defaults(t.mk()))
 		for k := 0; k < %d; k++ {
 			if msg := one(rng, t.id, t.mk); msg != "" {
 				if len(msg) > 400 {
@@ -210,6 +235,7 @@ func main() {
 `
 
 var reStructLine = regexp.MustCompile(`^([^|]+)\|S:([A-Za-z0-9_]+)\{`)
+var reRTDef = regexp.MustCompile(`(?m)^RTDEF (p\d+)\|(\S+) (.*)$`)
 var reRT = regexp.MustCompile(`(?m)^RT(FAIL|DONE) (p\d+)\|(\S+)(?: (.*))?$`)
 
 // roundTrip runs the smoke test for the given programs (pid -> emitted schema lines).
@@ -254,6 +280,25 @@ func roundTrip(e *env, seed int64, progs map[string][]string, byPid map[string]*
 	out, err := runCmd(e.buildDir, e.goenv, 10*time.Minute, "go", "run", "./rtmain")
 	res.Note("round-trip smoke test of %d emitted struct types x %d values: %.1fs", n, iters, time.Since(t0).Seconds())
 	done := 0
+	for _, m := range reRTDef.FindAllStringSubmatch(out, -1) {
+		pid, ty, got := m[1], m[2], m[3]
+		c := byPid[pid]
+		want, ok := c.Defaults[ty]
+		if !ok {
+			continue
+		}
+		if got == want {
+			res.Count("def/"+pid+ty, "defaults:ok", true)
+			continue
+		}
+		res.Count("def/"+pid+ty, "defaults:mismatch", true)
+		if verbose {
+			fmt.Printf("defaults: %s declared %s emitted %s\n", ty, want, got)
+		}
+		res.Violate(common.Violation{Signature: "C16:wrong-default:genFunResetDefault",
+			What: "after the emitted ResetDefault the members of " + ty + " do not hold the declared default values: declared " + trunc(want) + " emitted " + trunc(got),
+			Case: common.Case{Stream: "roundtrip", Op: c, Impl: trunc(got), Note: "declared: " + trunc(want)}})
+	}
 	for _, m := range reRT.FindAllStringSubmatch(out, -1) {
 		kind, pid, ty, msg := m[1], m[2], m[3], m[4]
 		if kind == "DONE" {
